@@ -481,7 +481,18 @@ func GenSharedTarget(rng *rand.Rand) *Model {
 		}
 		rng.Shuffle(len(restr), func(a, b int) { restr[a], restr[b] = restr[b], restr[a] })
 		second := []string{"member", "member", "other"}[rng.Intn(3)]
-		g.Rels = append(g.Rels, Rel{Name: "x" + string(rune('0'+i)), Rewrite: op(rng.Intn(4), This(), CU(second)), Restr: restr})
+		var rw *U
+		switch k := rng.Intn(7); {
+		case k < 4:
+			rw = op(k, This(), CU(second))
+		case k == 4:
+			rw = Union(This(), CU(second)) // the direct edge to group#member and the rewrite edge to it under one union
+		case k == 5:
+			rw = Union(CU(second), This(), CU("other"))
+		default:
+			rw = Inter(CU(second), This())
+		}
+		g.Rels = append(g.Rels, Rel{Name: "x" + string(rune('0'+i)), Rewrite: rw, Restr: restr})
 	}
 	// an intersection whose only common type reaches one operand through a LATER entry of the base list of an exclusion
 	if nu >= 2 {
